@@ -47,7 +47,7 @@ func isTopOfStack(r *core.Run, v ssa.Value, field string, depth int) bool {
 		return false
 	}
 	if u, ok := v.(*ssa.UnOp); ok && u.Op == token.MUL {
-		if ia, ok := u.X.(*ssa.IndexAddr); ok && strings.HasSuffix(canon(ia.X), "."+field) {
+		if ia, ok := u.X.(*ssa.IndexAddr); ok && (strings.HasSuffix(canon(ia.X), "."+field) || isStackValue(r, ia.X, "json.Parser", field, 0)) {
 			l := linOf(ia.Index)
 			return len(l.T) == 1 && l.C == -1
 		}
@@ -197,7 +197,7 @@ func runJSONKey(r *core.Run) {
 	}
 	// does block b (or a dominator) store ObjectValueState to the top of the stack (the key path)?
 	isTopAddr := func(a ssa.Value) bool {
-		if ia, isIA := a.(*ssa.IndexAddr); isIA && strings.HasSuffix(canon(ia.X), "."+field) {
+		if ia, isIA := a.(*ssa.IndexAddr); isIA && (strings.HasSuffix(canon(ia.X), "."+field) || isStackValue(r, ia.X, "json.Parser", field, 0)) {
 			l := linOf(ia.Index)
 			return len(l.T) == 1 && l.C == -1
 		}
